@@ -7,7 +7,7 @@ import vlib
 
 
 def run_ledger_check(prop, tier, replay, profile, oracles, rule_extra, quick=(3, 45, 16), thorough=(14, 70, 16),
-                     known=None, assumptions=None, prop_file=None):
+                     known=None, assumptions=None, prop_file=None, extra_stage=None):
     """quick/thorough = (histories per shard, steps per history, shards)."""
     V = vlib.Verdict(prop, tier)
     (binp,) = vlib.build_harness(["ledger"])
@@ -76,6 +76,8 @@ def run_ledger_check(prop, tier, replay, profile, oracles, rule_extra, quick=(3,
         "oracle_failures": len(fails),
         "oracle_failures_matching_known_findings": len(fails) - len(new_fails),
     })
+    if extra_stage is not None:
+        cov.update(extra_stage(V))
     return V.finish(cov, (assumptions or []) + [
         "node answers (tip, UTXO membership, kernel presence) and signature verdicts enter the model as recorded inputs",
         "coinbase log ids compared as a multiset (HashMap iteration order in apply_api_outputs)",
